@@ -136,7 +136,7 @@ pub open spec fn single_use(fs: Seq<&str>) -> bool {
 }
 pub open spec fn texts_small_ext(fs: Seq<&str>, extra: nat) -> bool {
     forall|v: Seq<HctlTreeNode>| v.len() == fs.len() && (forall|i: int| 0 <= i < v.len() ==> accepted(fs[i]@, true, view_tree(#[trigger] v[i])))
-        ==> #[trigger] roots_total(v) + extra < i32::MAX
+        ==> #[trigger] roots_total(v) + extra < i32::MAX && (forall|i: int| 0 <= i < v.len() ==> rsmall(view_tree(#[trigger] v[i])))
 }
 pub open spec fn result_ok_ext(g: &SymbolicAsyncGraph, s: Seq<char>, c: Map<String, GraphColoredVertices>, r: ISet<Pt>) -> bool {
     exists|t: STree| accepted_ext(s, t, c) && #[trigger] ok(g, r, sem(t, steady_set()))
@@ -182,7 +182,7 @@ pub proof fn lemma_budget_single_post(c0: EvalContext, c1: EvalContext, v: Seq<H
     }
 }
 pub open spec fn text_single_use(f: Seq<char>) -> bool { forall|t: STree, p: Seq<char>| #![trigger accepted(f, true, t), occ(t, p)] accepted(f, true, t) ==> occ(t, p) <= 1 }
-pub open spec fn text_small_ext(f: Seq<char>, extra: nat) -> bool { forall|t: STree| #[trigger] accepted(f, true, t) ==> s_size(t) + extra < i32::MAX }
+pub open spec fn text_small_ext(f: Seq<char>, extra: nat) -> bool { forall|t: STree| #[trigger] accepted(f, true, t) ==> s_size(t) + extra < i32::MAX && rsmall(t) }
 pub proof fn lemma_single_ext(f: &str, fs: Seq<&str>, extra: nat)
     requires text_single_use(f@), text_small_ext(f@, extra), fs.len() == 1, fs[0] == f
     ensures single_use(fs), texts_small_ext(fs, extra)
@@ -194,7 +194,7 @@ pub proof fn lemma_single_ext(f: &str, fs: Seq<&str>, extra: nat)
         assert(occ(view_tree(v[0]), p) <= 1);
     }
     assert forall|v: Seq<HctlTreeNode>| v.len() == fs.len() && (forall|i: int| 0 <= i < v.len() ==> accepted(fs[i]@, true, view_tree(#[trigger] v[i])))
-        implies #[trigger] roots_total(v) + extra < i32::MAX by {
+        implies #[trigger] roots_total(v) + extra < i32::MAX && (forall|i: int| 0 <= i < v.len() ==> rsmall(view_tree(#[trigger] v[i]))) by {
         lemma_roots_single(v);
         assert(accepted(fs[0]@, true, view_tree(v[0])));
     }
